@@ -31,7 +31,7 @@ import (
 func TestC35(t *testing.T) {
 	m := mon.New(t, "C35")
 	defer m.Done()
-	m.Rule("flow case = 1..3 channels (opened by either side) against a hand-written peer advertising window 0..200 and max packet 9..64 (15%: large/odd values up to 2^32-1), one writer goroutine per (channel, stream code in {0,1,>1}), write sizes from {0,1,mp-1,mp,mp+1,2mp,w0,w0+1,<500, log-uniform up to 200k}; the peer withholds every WINDOW_ADJUST until the log shows the window fully consumed and a goroutine dump shows every unfinished writer parked in window.reserve, then trickles adjusts of 0..mp+1 bytes in lock-step, then free-flows under one of 4 regrant policies; finally an exact 2*mp+1 burst, an adjust to exactly 2^32-1 and an overflowing adjust. recv case = compliant hand-written sender filling the mux's window to exactly 0 with data/stderr/code>1 packets up to the max packet size, readers delayed until the sender is starved. pair case = two real muxes, random writers/readers both ways with one delayed reader. distinct = (workload, channel count, window/max-packet class, stream set, policy, size classes); non-trivial = at least one data packet judged by the conservation checker")
+	m.Rule("flow case = 1..3 channels (opened by either side) against a hand-written peer advertising window 0..200 and max packet 9..64 (15%: large/odd values up to 2^32-1), one writer goroutine per (channel, stream code in {0,1,>1}), write sizes from {0,1,mp-1,mp,mp+1,2mp,w0,w0+1,<500, log-uniform up to 200k}; the peer withholds every WINDOW_ADJUST until the log shows the window fully consumed and a goroutine dump shows every unfinished writer parked in window.reserve, then trickles adjusts of 0..mp+1 bytes in lock-step, then free-flows under one of 4 regrant policies; finally an exact 2*mp+1 burst, an adjust to exactly 2^32-1 and an overflowing adjust. recv case = compliant hand-written sender filling the mux's window to exactly 0 with data/stderr/code>1 packets up to the max packet size, readers delayed until the sender is starved; whenever the mux writes a WINDOW_ADJUST for a starved sender the peer answers INSIDE that WritePacket call with data/stderr/discarded data up to the new window edge (or a small part) and holds the write until mux.loop has consumed it. pair case = two real muxes, random writers/readers both ways with one delayed reader. distinct = (workload, channel count, window/max-packet class, stream set, policy, size classes); non-trivial = at least one data packet judged by the conservation checker")
 	m.Assume("the harness pipe delivers packets reliably and in order and logs writes/reads under one mutex (total order); the hand-written RFC 4254 codec (wire.go, own vector test); Go runtime goroutine dumps for parked-state evidence")
 	m.Note("the TLA+ model named in the property's quantifier is outside this technique family; at most one writer per (channel, stream code) because concurrent writers with the same code are a documented non-feature of WriteExtended")
 
@@ -45,6 +45,7 @@ func TestC35(t *testing.T) {
 	m.Gate("overflow_adjust_refused_or_ignored", m.N(170, 1400), "adjust pushing the window above 2^32-1 not wrapped")
 	m.Gate("window_at_max_accepted", m.N(170, 1400), "adjust to exactly 2^32-1 accepted")
 	m.Gate("recv_discarded_ext_credited", m.N(48*60, 360*60), "discarded extended data (code>1) packets whose bytes were credited back by WINDOW_ADJUST")
+	m.Gate("recv_data_answered_inside_adjust_write", m.N(48, 360), "data using freshly granted credit queued inside the mux's own WINDOW_ADJUST write and consumed by mux.loop before that write returned")
 	m.Gate("recv_window_filled_exactly", m.N(48, 360), "compliant sender consumed the mux's window to exactly zero and was released by adjusts")
 	m.Gate("pair_writer_parked_on_real_window", m.N(48, 360), "real mux writer parked on a real mux receiver's exhausted window")
 }
